@@ -823,7 +823,7 @@ class LogicalLinkController(object):
         while True:
             client = socket.accept()
             with self.lock:
-                sap = self.sap[client.addr]
+                sap = self.sap[client.addr] if client.is_bound else None
                 if sap is None:
                     # link terminated while the connection was accepted
                     client.bind(None)
